@@ -274,6 +274,30 @@ static void pxBendMerge(vh::Rng &r, PxSpec &s) {
 static long runPlanX(const vh::Args &a, long k, bool thorough) {
     static const char *tags[9] = {"planx-grid", "planx-ttouch", "planx-overlap", "planx-short",
                                   "planx-through", "planx-multibend", "planx-random", "planx-near", "planx-bendmerge"};
+    // fixed witnesses of Props/C19Planarise.lean (short_segment_missorted, long_segment_sorted, short_segment_disconnects,
+    // ttouch_asymmetric): the tie must be exact on them, so the library shows the same behaviour as the model
+    for (int w = 0; w < 5; ++w, ++k) {
+        if (!a.want(k)) continue;
+        PxSpec s;
+        if (w <= 1) {
+            double d = (w == 0) ? 0.5 : 2.0;
+            int A = s.addNode(0, 0), B = s.addNode(60, 40), C = s.addNode(-20, 20), D = s.addNode(100, 20);
+            PxRoute mid; mid.push_back(Avoid::Point(20, 0)); mid.push_back(Avoid::Point(20, d)); mid.push_back(Avoid::Point(60, d));
+            s.addEdge(A, B, mid); s.addEdge(C, D, PxRoute());
+        } else if (w == 2) {
+            int A = s.addNode(0, 0), B = s.addNode(60, 40), C = s.addNode(-20, 20), D = s.addNode(40, 20),
+                E = s.addNode(-20, 30), F = s.addNode(40, 30);
+            PxRoute mid; mid.push_back(Avoid::Point(20, 0)); mid.push_back(Avoid::Point(20, 0.5)); mid.push_back(Avoid::Point(60, 0.5));
+            s.addEdge(A, B, mid); s.addEdge(C, D, PxRoute()); s.addEdge(E, F, PxRoute());
+        } else {
+            int A = s.addNode(0, 0), B = s.addNode(0, 40), C = s.addNode(w == 3 ? -20 : 20, 20), D = s.addNode(0, 20);
+            s.addEdge(A, B, PxRoute()); s.addEdge(C, D, PxRoute());
+        }
+        vh::beginCase(k, "planx-jog-witness");
+        printf("kind planx\nwitness %d\n", w);
+        pxRun(s);
+        vh::endCase();
+    }
     long nX = (thorough ? 4500 : 900) * a.scale;
     if (a.n >= 0) nX = a.n / 4;
     for (long c = 0; c < nX; ++c, ++k) {
